@@ -89,6 +89,7 @@ def load_config(nx=(2, 6), nyh=(2, 6)):
             forces=forces(),
             point=st.lists(S.fl(-20.0, 20.0, 0.0), min_size=3, max_size=3),
             two_surfaces=st.booleans(),
+            units=unit_choice(),
         )
     )
 
@@ -107,7 +108,7 @@ def motion():
 
 
 def motion_config(nx=(2, 6), nyh=(2, 6)):
-    return st.fixed_dictionaries(dict(mesh=mesh_strategy(nx, nyh), spar=spar(), motion=motion()))
+    return st.fixed_dictionaries(dict(mesh=mesh_strategy(nx, nyh), spar=spar(), motion=motion(), units=unit_choice()))
 
 
 def coupled_config():
@@ -189,14 +190,26 @@ def force_field(fd, nx, ny):
     return fd["amp"] * F
 
 
-def run_comp(comp, **vals):
-    """one-component problem; inputs come from an IndepVarComp (values are SI, as are all inputs of the components)"""
+def unit_choice():
+    """units in which the user declares the independent variables feeding a component (same physical values; OpenMDAO
+    converts to the units the component declares).  None = everything SI."""
+    L = st.sampled_from(["m", "ft", "inch", "cm"])
+    return st.one_of(st.none(), st.none(), st.fixed_dictionaries(dict(
+        mesh=L, def_mesh=L, nodes=L, disp=L, sec_forces=st.sampled_from(["N", "lbf", "kN"]))))
+
+
+def run_comp(comp, _units=None, **vals):
+    """one-component problem; inputs come from an IndepVarComp.  `vals` are SI; with `_units` the user declares (and
+    fills) his variables in other units of the same dimension"""
     import openmdao.api as om
+    from openmdao.utils.units import convert_units
 
     p = om.Problem(reports=False)
     ivc = om.IndepVarComp()
     for k, v in vals.items():
-        ivc.add_output(k, val=np.array(v, float), units="N" if k.endswith("sec_forces") else "m")
+        si = "N" if k.endswith("sec_forces") else "m"
+        u = (_units or {}).get("sec_forces" if k.endswith("sec_forces") else k, si)
+        ivc.add_output(k, val=convert_units(np.array(v, float), si, u), units=u)
     p.model.add_subsystem("ivc", ivc, promotes=["*"])
     p.model.add_subsystem("c", comp, promotes=["*"])
     p.setup()
@@ -288,8 +301,11 @@ def verdict_loads(desc):
     w = spar_fraction(sp)
     surf = make_surface("wing", mesh, md["kind"], sp)
 
-    loads = run_comp(LoadTransfer(surface=surf), def_mesh=dm, sec_forces=F).get_val("loads").copy()
-    nodes = run_comp(ComputeNodes(surface=surf), mesh=dm).get_val("nodes").copy()
+    U = desc.get("units")
+    if U:
+        out.label("user_units")
+    loads = run_comp(LoadTransfer(surface=surf), U, def_mesh=dm, sec_forces=F).get_val("loads").copy()
+    nodes = run_comp(ComputeNodes(surface=surf), U, mesh=dm).get_val("nodes").copy()
     surfs = [surf]
     vals = {"wing_sec_forces": F}
     if desc["two_surfaces"]:
@@ -298,7 +314,7 @@ def verdict_loads(desc):
         surfs = [make_surface("tail", m2, md["kind"], sp), surf]
         vals["tail_sec_forces"] = -2.0 * F[: m2.shape[0] - 1, : m2.shape[1] - 1]
         out.label("mpf_two_surfaces")
-    pm = run_comp(MeshPointForces(surfaces=surfs), **vals)
+    pm = run_comp(MeshPointForces(surfaces=surfs), U, **vals)
     mpf = pm.get_val("wing_mesh_point_forces").copy()
 
     sumf, arm = check_conservation(out, "", dm, F, p, w, loads=loads, mpf=mpf)
@@ -342,24 +358,31 @@ def verdict_motion(desc):
     ny = mesh.shape[1]
     w = spar_fraction(sp)
     surf = make_surface("wing", mesh, md["kind"], sp)
-    nodes = run_comp(ComputeNodes(surface=surf), mesh=mesh).get_val("nodes").copy()
+    U = desc.get("units")
+    if U:
+        out.label("user_units")
+    nodes = run_comp(ComputeNodes(surface=surf), U, mesh=mesh).get_val("nodes").copy()
     nodes_ref = spar_line(mesh, w)
     scale = float(np.max(np.abs(mesh)))
     out.close("nodes/definition", nodes, nodes_ref, rtol=4e-15, scale=scale + 1e-300)
 
     def transfer(disp):
-        return run_comp(DisplacementTransferGroup(surface=surf), mesh=mesh, nodes=nodes, disp=disp).get_val("def_mesh").copy()
+        return run_comp(DisplacementTransferGroup(surface=surf), U, mesh=mesh, nodes=nodes, disp=disp).get_val("def_mesh").copy()
 
     t, th = motion_fields(mo, ny)
     # zero displacement: bitwise
     d0 = transfer(np.zeros((ny, 6)))
-    out.true("zero_disp/bitwise", np.array_equal(d0, mesh), "max|def_mesh-mesh| = %.3e at zero displacement" % np.max(np.abs(d0 - mesh)))
+    if U:
+        # unit conversion there and back costs an ulp or two of the coordinates
+        out.le("zero_disp/bitwise", np.max(np.abs(d0 - mesh)), 9e-16 * scale)
+    else:
+        out.true("zero_disp/bitwise", np.array_equal(d0, mesh), "max|def_mesh-mesh| = %.3e at zero displacement" % np.max(np.abs(d0 - mesh)))
     # pure translation (uniform or per chordwise section)
     disp = np.zeros((ny, 6))
     disp[:, :3] = t
     dt = transfer(disp)
     tscale = scale + float(np.max(np.abs(t)))
-    out.le("translation/exact", np.max(np.abs(dt - (mesh + t[None, :, :]))), 2.3e-16 * tscale)
+    out.le("translation/exact", np.max(np.abs(dt - (mesh + t[None, :, :]))), (1.2e-15 if U else 2.3e-16) * tscale)
     # rotations eps*theta, superposed on the translation
     for eps in EPS_LADDER:
         disp = np.zeros((ny, 6))
